@@ -117,7 +117,8 @@ class SplineComp(ExplicitComponent):
             opts = self.options['interp_options']
 
         vec_size = self.options['vec_size']
-        n_interp = len(self.options['x_interp_val'])
+        x_interp = np.asarray(self.options['x_interp_val'])
+        n_interp = len(x_interp)
 
         for y_cp_name, y_interp_name, y_cp_val, y_units in self._spline_cache:
 
@@ -146,7 +147,7 @@ class SplineComp(ExplicitComponent):
             cp_val = y_cp_val[0, :]
             self.interps[y_interp_name] = InterpND(points=(grid, ), values=cp_val,
                                                    method=interp_method,
-                                                   x_interp=self.options['x_interp_val'],
+                                                   x_interp=x_interp,
                                                    extrapolate=True, **opts)
 
         # The scipy methods do not support complex step.
@@ -168,7 +169,7 @@ class SplineComp(ExplicitComponent):
             values = inputs[self.interp_to_cp[out_name]]
             interp._compute_d_dvalues = True
             interp._compute_d_dx = False
-            interp.x_interp = self.options['x_interp_val']
+            interp.x_interp = np.asarray(self.options['x_interp_val'])
 
             try:
                 outputs[out_name] = interp._evaluate_spline(values)
